@@ -12,7 +12,8 @@ for d in seeded/${1:-*}/; do
   id=$(basename "$d")
   [ -f "$d/meta.json" ] || continue
   prop=$(python3 -c "import json,sys; print(json.load(open('$d/meta.json'))['breaks_property'])")
-  out=$(tools/try_seed.sh "/verif/${d}patch.diff" quick "$prop" 2>&1)
+  tier=$(python3 -c "import json,sys; print(json.load(open('$d/meta.json')).get('tier','quick'))")
+  out=$(tools/try_seed.sh "/verif/${d}patch.diff" "$tier" "$prop" 2>&1)
   rc=$?
   cls=$(echo "$out" | grep "class=" | head -1 | sed 's/ cases=.*//' | cut -c1-90)
   if [ $rc -eq 0 ]; then echo "CAUGHT $id $prop $cls"; else echo "MISSED $id $prop (rc=$rc)"; missed=$((missed+1)); fi
